@@ -38,9 +38,10 @@ type Ctx struct {
 	SSA   map[string]*ssa.Package
 	Funcs []*ssa.Function // all source functions of the module (incl. closures, instantiations)
 
-	roles     map[string]any // memoised role resolutions
-	cycleMemo map[*ssa.Function]bool
-	ctxEnv    *env // calling-context bindings in force (panic-site lifting); used wherever a nil env is passed
+	roles        map[string]any // memoised role resolutions
+	cycleMemo    map[*ssa.Function]bool
+	resolveDepth int
+	ctxEnv       *env // calling-context bindings in force (panic-site lifting); used wherever a nil env is passed
 }
 
 func loadRepo(repo string) (*Ctx, error) {
